@@ -347,6 +347,234 @@ def gen_open_case(rng, box=120, tries=60):
     return [], [polys.rect(-40, -40, 30, 35)], [[(-60, -3), (50, 11)]], dict(kinds=(-1, -1), fams=['fallback'], crossings=2, broad=False)
 
 
+# ----------------------------------------------------------------------------- open END families (coverage round, C05)
+# Shapes aimed at what the sweep does at the END vertices of open paths and at horizontal edges next to local minima
+# (ClipperBase::AddLocalMaxPoly's IsFront(e1) == IsFront(e2) test with its IsOpenEnd branches, InsertLocalMinimaIntoAEL's
+# bound ordering when one bound starts with a horizontal): zig-zags with interior local minima AND maxima whose end vertices
+# lie inside a closed path (hot when the sweep reaches them) and end going up or going down, several polylines sharing an
+# end point, ends exactly on a closed vertex or on a lattice point of a closed edge, ends on the scanline of other
+# vertices, horizontal first / last / interior segments at local minima and maxima heading left and right.
+ENDS_FAMILIES = ['zz-ends-in', 'zz-ends-in', 'shared-ends', 'shared-ends', 'end-on-closed', 'end-on-closed', 'end-shared-y',
+                 'horz-at-min', 'horz-at-min', 'horz-end-in']
+
+
+def wn_py(p, q):
+    """winding number of the closed path p about q (q not on p), crossing rule"""
+    w = 0
+    for a, b in cyc_edges(p):
+        if a[1] <= q[1]:
+            if b[1] > q[1] and cross(a, b, q) > 0:
+                w += 1
+        elif b[1] <= q[1] and cross(a, b, q) < 0:
+            w -= 1
+    return w
+
+
+def _inside_pt(rng, closed, box, tol=4):
+    """a point inside one of the closed paths and >= tol from every closed edge (falls back to a point near a centroid)"""
+    es = [e for p in closed for e in cyc_edges(p)]
+    for _ in range(40):
+        p = rng.choice(closed)
+        xs, ys = [v[0] for v in p], [v[1] for v in p]
+        q = (rng.range(min(xs), max(xs)), rng.range(min(ys), max(ys)))
+        if all(seg_far(tol, 1, q, a, b) for a, b in es) and wn_py(p, q) != 0:
+            return q
+    return _interior_point(rng, closed, box)
+
+
+def _zigzag(rng, A, B, n, amp_lo=12, amp_hi=70):
+    """n vertices from A to B: interior vertices spread along AB and pushed alternately up and down, so that the polyline has
+    interior local minima and maxima; the first push is up or down at random (decides whether the path leaves A / reaches B
+    going up or going down)"""
+    s = rng.choice([-1, 1])
+    pts = [A]
+    for i in range(1, n - 1):
+        x = A[0] + (B[0] - A[0]) * i // (n - 1) + rng.range(-6, 6)
+        y = A[1] + (B[1] - A[1]) * i // (n - 1) + s * rng.range(amp_lo, amp_hi)
+        pts.append((x, y))
+        s = -s
+    pts.append(B)
+    return pts
+
+
+def _lattice_on_edge(rng, a, b):
+    """an integer point of the closed edge ab other than its ends when there is one, else a"""
+    from math import gcd
+    g = gcd(abs(b[0] - a[0]), abs(b[1] - a[1]))
+    if g < 2:
+        return a
+    k = rng.range(1, g - 1)
+    return (a[0] + (b[0] - a[0]) // g * k, a[1] + (b[1] - a[1]) // g * k)
+
+
+def ends_paths(rng, closed, box, fam, O):
+    """one or more open polylines of the END family `fam` (O = the polylines chosen so far)"""
+    far = lambda: _outside_point(rng, box) if rng.chance(1, 2) else polys.rand_pt(rng, box + 20)
+    if fam == 'zz-ends-in':
+        A = _inside_pt(rng, closed, box)
+        B = _inside_pt(rng, closed, box) if rng.chance(2, 3) else far()
+        p = _zigzag(rng, A, B, rng.range(3, 9))
+        if rng.chance(1, 2):
+            p.reverse()
+        return [p]
+    if fam == 'shared-ends':
+        # 2-3 polylines meeting in one point P with their first or last vertex, arriving from above and from below
+        P = _inside_pt(rng, closed, box) if rng.chance(2, 3) else polys.rand_pt(rng, box)
+        out = []
+        for i in range(rng.range(2, 3)):
+            side = rng.choice([-1, 1])
+            Q = (P[0] + rng.range(-box, box), P[1] + side * rng.range(10, box))
+            p = _zigzag(rng, Q, P, rng.range(2, 5), 8, 40)
+            if rng.chance(1, 2):
+                p.reverse()
+            out.append(p)
+        return out
+    if fam == 'end-on-closed':
+        # the last (or first) vertex is a closed vertex or a lattice point of a closed edge
+        a, b = rng.choice([e for p in closed for e in cyc_edges(p)])
+        P = a if rng.chance(1, 2) else _lattice_on_edge(rng, a, b)
+        Q = _inside_pt(rng, closed, box) if rng.chance(1, 2) else far()
+        p = _zigzag(rng, Q, P, rng.range(2, 6), 8, 50)
+        if rng.chance(1, 2):
+            p.reverse()
+        return [p]
+    if fam == 'end-shared-y':
+        # end vertices (and an interior extremum) on the scanline of a closed vertex or of a vertex of another polyline
+        ys = [v[1] for q in closed for v in q] + [v[1] for q in O for v in q]
+        y = rng.choice(ys)
+        A = (rng.range(-box, box), y)
+        B = (rng.range(-box, box), rng.choice(ys)) if rng.chance(1, 2) else _inside_pt(rng, closed, box)
+        p = _zigzag(rng, A, B, rng.range(3, 7))
+        if len(p) > 3 and rng.chance(1, 2):
+            i = rng.range(1, len(p) - 2)
+            p[i] = (p[i][0], y)
+        if rng.chance(1, 2):
+            p.reverse()
+        return [p]
+    if fam == 'horz-at-min':
+        # arm, horizontal run of 1-2 segments (heading left or right, also doubling back), arm on the same side: a local minimum
+        # or maximum one of whose bounds starts with a horizontal; with prob 1/3 an arm is missing (horizontal first / last segment)
+        x, y = _inside_pt(rng, closed, box) if rng.chance(1, 2) else polys.rand_pt(rng, box)
+        side = rng.choice([-1, 1])
+        d = rng.choice([-1, 1])
+        run = [(x, y)]
+        for i in range(rng.range(1, 2)):
+            x = x + d * rng.range(8, box)
+            run.append((x, y))
+            if rng.chance(1, 4):
+                d = -d
+        arm = lambda v: (v[0] + rng.range(-50, 50), v[1] + side * rng.range(6, 90))
+        k = rng.below(6)
+        p = ([] if k == 0 else [arm(run[0])]) + run + ([] if k == 1 else [arm(run[-1])])
+        if rng.chance(1, 3):
+            p = p + _zigzag(rng, p[-1], far(), rng.range(2, 4))[1:]
+        if rng.chance(1, 2):
+            p.reverse()
+        return [p]
+    # 'horz-end-in': a horizontal first segment starting inside a closed path, then up or down and onwards
+    A = _inside_pt(rng, closed, box)
+    x = A[0] + rng.choice([-1, 1]) * rng.range(6, box)
+    p = [A, (x, A[1])] + _zigzag(rng, (x, A[1]), far(), rng.range(2, 5))[1:]
+    if rng.chance(1, 2):
+        p.reverse()
+    return [p]
+
+
+def flat_closed(rng, box):
+    """closed paths whose local minima and maxima carry horizontal edges (rectangle, trapezoid, flat-bottomed pentagon)"""
+    x0, x1 = rng.range(-box, -10), rng.range(10, box)
+    y0, y1 = rng.range(-box, -10), rng.range(10, box)
+    k = rng.below(3)
+    if k == 0:
+        p = polys.rect(x0, y0, x1, y1)
+    elif k == 1:
+        p = [(x0, y0), (x1, y0), (x1 + rng.range(-40, 40), y1), (x0 + rng.range(-40, 40), y1)]
+    else:
+        p = [(x0, y0), (x1, y0), (x1 + rng.range(5, 40), (y0 + y1) // 2), ((x0 + x1) // 2, y1), (x0 - rng.range(5, 40), (y0 + y1) // 2)]
+    if rng.chance(1, 2):
+        p = list(reversed(p))
+    if rng.chance(1, 2):
+        k = rng.range(0, len(p) - 1)
+        p = p[k:] + p[:k]
+    return p
+
+
+
+def gen_open_ends_case(rng, box=120):
+    """(S, C, O, info) of the END families.  info['broad'] = the open polylines are NOT in general position by the python
+    pre-filters (shared end points, ends on closed edges/vertices): such cases are only translated, never scaled."""
+    for _ in range(400):
+        mode = rng.below(10)
+        if mode < 5:
+            S, C, kinds = polys.gen_genpos_case(rng, box)
+            if rng.chance(1, 4):
+                S = []
+                kinds = (-2, kinds[1])
+        elif mode < 8:
+            C = [flat_closed(rng, box)]
+            S = [flat_closed(rng, box)] if rng.chance(1, 3) else polys.rand_path_set(rng, box, rng.below(8)) if rng.chance(1, 2) else []
+            kinds = ('any', 'flat-closed')
+            if rng.chance(1, 4):
+                S, C = C, S
+                kinds = ('flat-closed', 'any')
+            if not polys.general_position(S + C):
+                continue
+        else:
+            C = [p for p in multiwound(rng, box) if len(p) >= 3]
+            S = []
+            kinds = ('none', 'mw-clip')
+            if not polys.general_position(S + C):
+                continue
+        closed = S + C
+        if not closed:
+            continue
+        O, fams = [], []
+        for _ in range(rng.range(1, 2)):
+            fam = rng.choice(ENDS_FAMILIES)
+            for attempt in range(12):
+                ps = [dedup(p) for p in ends_paths(rng, closed, box, fam, O)]
+                ps = [p for p in ps if len(p) >= 2 and max(abs(c) for v in p for c in v) <= box + 70]
+                # families that can be in general position are redrawn a few times until they are (strict class); shared end
+                # points and ends on closed edges never are (broad class)
+                if fam in ('shared-ends', 'end-on-closed') or (ps and gp_open_py(closed, ps) and open_self_clear_py(O + ps)):
+                    break
+            if ps:
+                O += ps
+                fams.append(fam)
+        O = O[:4]
+        if not O:
+            continue
+        nx = count_crossings(closed, O)
+        if nx == 0 and not rng.chance(1, 8):
+            continue
+        strict = gp_open_py(closed, O) and open_self_clear_py(O)
+        return S, C, O, dict(kinds=kinds, fams=fams, crossings=nx, broad=not strict, ends=True)
+    return [], [polys.rect(-40, -40, 30, 35)], [[(-60, -3), (0, 20), (10, -11)]], dict(kinds=(-1, -1), fams=['fallback'], crossings=1, broad=False, ends=True)
+
+
+def end_shape_stats(O):
+    """what the END families are meant to produce, counted on the generated polylines (evidence only): per polyline
+    interior local extrema, ends reached going up / going down / horizontally (y axis of the library: up = smaller y),
+    horizontal segments adjacent to a local extremum"""
+    st = dict(paths=0, interior_extrema=0, end_up=0, end_down=0, end_horizontal=0, horz_at_extremum=0, horz_left=0, horz_right=0)
+    for p in O:
+        st['paths'] += 1
+        dys = [b[1] - a[1] for a, b in open_edges(p)]
+        nz = [d for d in dys if d != 0]
+        st['interior_extrema'] += sum(1 for i in range(len(nz) - 1) if (nz[i] > 0) != (nz[i + 1] > 0))
+        for d in (-dys[0], dys[-1]):          # direction in which the sweep-relevant end is reached, seen from the path
+            st['end_horizontal' if d == 0 else 'end_up' if d < 0 else 'end_down'] += 1
+        for i, (a, b) in enumerate(open_edges(p)):
+            if a[1] != b[1]:
+                continue
+            st['horz_right' if b[0] > a[0] else 'horz_left'] += 1
+            before = [d for d in dys[:i] if d != 0]
+            after = [d for d in dys[i + 1:] if d != 0]
+            if not before or not after or (before[-1] > 0) != (after[0] > 0):
+                st['horz_at_extremum'] += 1
+    return st
+
+
 def horz_spike(O):
     """some open path has two consecutive horizontal segments of opposite direction (a horizontal 180-degree spike; before the
     fix of DoHorizontal the maxima pair was met too early, see triage/C05.md)"""
